@@ -112,6 +112,7 @@ type caseDesc struct {
 	PeerEOF   bool     `json:"peer_eof"`
 	Packets   []int64  `json:"keepalive_ids"`
 	Switch    bool     `json:"switch_handler"`
+	CloseErr  bool     `json:"socket_close_reports_error"`
 }
 
 func TestC44(t *testing.T) {
@@ -124,7 +125,7 @@ func TestC44(t *testing.T) {
 	protos := []proto.Protocol{47, 340, 758, 763, 767, 775}
 	closerKinds := []string{"Close", "CloseWith", "CloseUnknown"}
 	winners := map[string]int{}
-	var panicsContained, postPanicHandled, writesAfterClose, eofClosed, failClosed int64
+	var panicsContained, postPanicHandled, writesAfterClose, eofClosed, failClosed, closeErrCases int64
 
 	for i := 0; i < n; i++ {
 		cd := caseDesc{Proto: int(protos[rng.Intn(len(protos))]), Writers: rng.Intn(5), FailAfter: -1}
@@ -136,6 +137,7 @@ func TestC44(t *testing.T) {
 		}
 		cd.PeerEOF = rng.Intn(3) == 0 || (len(cd.Closers) == 0 && cd.FailAfter < 0)
 		cd.Switch = rng.Intn(4) == 0
+		cd.CloseErr = rng.Intn(4) == 0
 		for k := rng.Intn(12); k > 0; k-- {
 			cd.Packets = append(cd.Packets, int64(rng.Intn(64))+int64(i)*64)
 		}
@@ -144,6 +146,12 @@ func TestC44(t *testing.T) {
 		proxyEnd, peer := lib.Pipe()
 		if cd.FailAfter >= 0 {
 			proxyEnd.FailWritesAfter(cd.FailAfter, errors.New("injected: connection reset by peer"))
+		}
+		if cd.CloseErr {
+			// the socket's own Close reports an error (already closed by another holder of the raw
+			// conn, a TLS wrapper failing its close-notify, ...): teardown must run all the same
+			proxyEnd.FailClose(errors.New("injected: close tcp: use of closed network connection"))
+			closeErrCases++
 		}
 		conn, readLoop := netmc.NewMinecraftConn(context.Background(), proxyEnd, proto.ServerBound, 30*time.Second, 30*time.Second, -1, nil)
 		pv := proto.Protocol(cd.Proto)
@@ -334,6 +342,7 @@ func TestC44(t *testing.T) {
 	r.Set("handler_panics_contained", panicsContained)
 	r.Set("packets_handled_in_runs_with_panics", postPanicHandled)
 	r.Set("write_probes_after_close", writesAfterClose)
+	r.Set("cases_where_the_socket_close_itself_reports_an_error", closeErrCases)
 	r.Set("closed_by_read_loop_end", eofClosed)
 	r.Set("closed_by_write_error_or_eof", failClosed)
 }
